@@ -55,7 +55,7 @@ def scan(docs):
     def walk_fn(n, cls, role):
         pos = walk(n, cls, "ns")          # keeps the location state current through the body
         if pos is None or pos[0] not in HEADERS: return
-        if n.get("isImplicit") or n.get("explicitlyDefaulted") or n.get("explicitlyDeleted"): return
+        if n.get("isImplicit") or n.get("explicitlyDeleted"): return      # explicitly defaulted members are listed
         name = n.get("name", "")
         if n.get("kind") == "CXXConstructorDecl": name = "<constructor>"
         key = "%s %s%s %s" % (pos[0], (cls + "::") if cls else "", name, n.get("type", {}).get("qualType", ""))
